@@ -782,7 +782,16 @@ func (w *c03World) build() {
 			q.Marshal()
 			return true
 		}})
-	w.add(&c03Target{name: "type3.UnmarshalEncapKey", seeds: [][]byte{iss3.NameKey().Marshal()}, fields: u16At(1),
+	w.add(&c03Target{name: "type3.UnmarshalEncapKey", seeds: [][]byte{iss3.NameKey().Marshal()},
+		fields: func(b []byte) []lenField { // KEM id, KDF id and AEAD id: every edge value incl. 0xffff (export-only AEAD)
+			var fs []lenField
+			for _, off := range []int{1, 35, 37} {
+				if off+2 <= len(b) {
+					fs = append(fs, lenField{off, 2, uint64(binary.BigEndian.Uint16(b[off:]))})
+				}
+			}
+			return fs
+		},
 		call: func(b []byte) bool {
 			k, err := type3.UnmarshalEncapKey(b)
 			if err != nil {
